@@ -2,11 +2,12 @@
 Spec: server/Worker.tla (one action = one poll of the ServerWorker future)."""
 import workerflow
 
-INV = ["T_C07_CallOnlyAfterAllReady", "T_C07_Fifo", "T_C07_RestartOnlyFailed", "T_C07_FailedIsRecreated", "T_C07_NoneLost", "T_C07_QueueMeasured"]
-DESIGN = ["MC_worker_ready.cfg", "MC_worker_ready_k1.cfg"]
+INV = ["T_C07_CallOnlyAfterAllReady", "T_C07_Fifo", "T_C07_RestartOnlyFailed", "T_C07_FailedIsRecreated", "T_C07_NoneLost", "T_C07_QueuedMeansOwed", "T_C07_QueueMeasured"]
+DESIGN = ["MC_worker_ready.cfg", "MC_worker_ready_k1.cfg", "MC_worker_batch_rewake.cfg"]
 THOROUGH = ["MC_worker_ready3.cfg"]
 NEGS = {"NEG_worker_ReadyCheckOnce.cfg": ["Steps"], "NEG_worker_RestartAll.cfg": ["Steps"],
-        "NEG_worker_LifoQueue.cfg": ["C07_Fifo"], "NEG_worker_ErrKeepsPolling.cfg": ["Steps"]}
+        "NEG_worker_LifoQueue.cfg": ["C07_Fifo"], "NEG_worker_ErrKeepsPolling.cfg": ["Steps"],
+        "NEG_worker_BatchNoRewake.cfg": ["C07_QueuedMeansOwed"]}
 
 
 def nontrivial(s, run):
@@ -23,7 +24,7 @@ def nontrivial(s, run):
 
 def run(ctx):
     workerflow.run_check(
-        ctx, design=DESIGN, edge_cfgs=DESIGN, negs=NEGS, invariants=INV, corpus=["worker_ready.ndjson"],
+        ctx, design=DESIGN, edge_cfgs=DESIGN[:2], negs=NEGS, invariants=INV, corpus=["worker_ready.ndjson"],
         thorough_design=THOROUGH, nontrivial=nontrivial,
         rule="schedules = init-rooted paths covering the edges of Worker.tla's state graph (1..2 services, readiness scripts "
              "with Pending/Err answers in every position, factory re-creation with a pending poll, <= 3 connections in every "
